@@ -1,7 +1,7 @@
 (* EntryFacts.v — structured entries (Model/Entry.v): the parse loop distributes over
    concatenation, parse . serialise is the identity up to dropped empty data chunks and is
    byte-stable from the second pass, unknown chunks survive, sizes add up, nothing panics. *)
-From PNA Require Import Base Crc32 Name Codec Chunk Archive Entry
+From PNA Require Import Base Crc32 Name Codec Chunk Archive Entry PiecesFacts
   BaseFacts NameFacts CodecFacts Crc32Facts ChunkFacts ArchiveFacts.
 Require Import ZArith ZifyN ZifyNat ZifyBool.
 Open Scope N_scope.
@@ -248,11 +248,21 @@ Proof. repeat split. Qed.
 (* ================================================================================================= *)
 Definition sum_len (l : list bytes) : N := fold_left N.add (map len l) 0.
 Definition nonempty (d : bytes) : bool := match d with [] => false | _ => true end.
-(* re-serialising drops empty FDAT payloads (`chunks(u32::MAX)` of an empty slice yields nothing);
-   everything else is kept *)
+(* re-serialising cuts every FDAT payload into pieces of at most u32::MAX bytes (`chunks(u32::MAX)`): an empty
+   payload yields nothing, a payload of at most u32::MAX bytes itself (normalize_small: then only the empty
+   payloads go); everything else is kept *)
+Definition cut_data (ds : list bytes) : list bytes := cutN CMAX ds.
 Definition normalize (e : normal_entry) : normal_entry :=
-  {| n_hdr := n_hdr e; n_phsf := n_phsf e; n_extra := n_extra e; n_data := filter nonempty (n_data e);
+  {| n_hdr := n_hdr e; n_phsf := n_phsf e; n_extra := n_extra e; n_data := cut_data (n_data e);
      n_meta := n_meta e; n_xattrs := n_xattrs e |}.
+Lemma cut_data_small ds : Forall (fun d => len d < 2 ^ 32) ds -> cut_data ds = filter nonempty ds.
+Proof.
+  intros H. unfold cut_data. rewrite cutN_small; [reflexivity|]. eapply Forall_impl; [|exact H]. intros d. apply CMAX_lt.
+Qed.
+Lemma normalize_small e : Forall (fun d => len d < 2 ^ 32) (n_data e) ->
+  normalize e = {| n_hdr := n_hdr e; n_phsf := n_phsf e; n_extra := n_extra e; n_data := filter nonempty (n_data e);
+                   n_meta := n_meta e; n_xattrs := n_xattrs e |}.
+Proof. intros H. unfold normalize. rewrite cut_data_small by exact H. reflexivity. Qed.
 
 Lemma fold_add_acc l : forall acc, fold_left N.add l acc = acc + fold_left N.add l 0.
 Proof.
@@ -264,12 +274,31 @@ Lemma sum_len_cons d l : sum_len (d :: l) = len d + sum_len l.
 Proof. unfold sum_len. cbn [map fold_left]. rewrite fold_add_acc. lia. Qed.
 Lemma sum_len_app a b : sum_len (a ++ b) = sum_len a + sum_len b.
 Proof. induction a as [|d a IH]; cbn [app]; rewrite ?sum_len_cons, ?sum_len_nil, ?IH; lia. Qed.
+Lemma sum_len_fold l : sum_len l = fold_right (fun p n => len p + n) 0 l.
+Proof. induction l as [|d l IH]; [reflexivity|]. rewrite sum_len_cons, IH. reflexivity. Qed.
+Lemma sum_len_concat l : sum_len l = len (concat l).
+Proof. rewrite sum_len_fold, len_concat. reflexivity. Qed.
+Lemma sum_len_cut cmax l : 0 < cmax -> sum_len (cutN cmax l) = sum_len l.
+Proof. intros K. rewrite !sum_len_concat, cutN_concat by exact K. reflexivity. Qed.
+Lemma sum_len_cut_data l : sum_len (cut_data l) = sum_len l.
+Proof. apply sum_len_cut, CMAX_pos. Qed.
 Lemma sum_len_filter l : sum_len (filter nonempty l) = sum_len l.
 Proof.
   induction l as [|d l IH]; [reflexivity|]. cbn [filter]. destruct d as [|b d]; cbn [nonempty].
   - rewrite sum_len_cons, IH. unfold len. cbn [length]. lia.
   - rewrite !sum_len_cons, IH. reflexivity.
 Qed.
+
+(* the data chunks of a list of payloads: one chunk per piece *)
+Lemma data_chunks_cut t ds : concat (map (data_chunks t) ds) = map (mk t) (cut_data ds).
+Proof.
+  unfold cut_data, cutN, data_chunks, data_chunks_at. induction ds as [|d ds IH]; [reflexivity|].
+  cbn [map concat flat_map]. rewrite IH, map_app. reflexivity.
+Qed.
+Lemma data_chunks_nil t : data_chunks t [] = [].
+Proof. reflexivity. Qed.
+Lemma data_chunks_small t d : d <> [] -> len d < 2 ^ 32 -> data_chunks t d = [mk t d].
+Proof. intros NE H. unfold data_chunks, data_chunks_at. rewrite pieces_small; [reflexivity|exact NE|apply CMAX_lt; exact H]. Qed.
 
 (* the chunk types the normal-entry parser recognises; all others are kept in n_extra *)
 Definition is_known (c : chunk) : bool :=
@@ -448,16 +477,19 @@ Proof.
   rewrite app_nil_r, sum_len_nil, N.add_0_r. reflexivity.
 Qed.
 
-Lemma seg_data ds : forall a,
-  parse_normal_loop (concat (map (data_chunks FDAT) ds) ++ rest) a =
-  parse_normal_loop rest (upd_data (filter nonempty ds) a).
+(* FDAT chunks, whatever their payloads *)
+Lemma seg_fdat_list ds : forall a,
+  parse_normal_loop (map (mk FDAT) ds ++ rest) a = parse_normal_loop rest (upd_data ds a).
 Proof.
   induction ds as [|d ds IH]; intros a; [rewrite upd_data_nil; reflexivity|].
-  destruct d as [|b d]; cbn [map concat data_chunks filter nonempty app]; [apply IH|].
-  cbn [parse_normal_loop]. tysimp. cbn [cdata mk]. rewrite IH. f_equal.
+  cbn [map app parse_normal_loop]. tysimp. cbn [cdata mk]. rewrite IH. f_equal.
   unfold upd_data. cbn [k_info k_phsf k_extra k_data k_csize k_size k_c k_m k_a k_perm k_x].
   rewrite <- app_assoc, sum_len_cons, N.add_assoc. reflexivity.
 Qed.
+Lemma seg_data ds : forall a,
+  parse_normal_loop (concat (map (data_chunks FDAT) ds) ++ rest) a =
+  parse_normal_loop rest (upd_data (cut_data ds) a).
+Proof. intros a. rewrite data_chunks_cut. apply seg_fdat_list. Qed.
 
 Lemma seg_ctime o a : opt_all (fun t => t < 2 ^ 64) o ->
   parse_normal_loop (opt_chunk cTIM time_to_bytes o ++ rest) a = parse_normal_loop rest (opt_upd upd_c o a).
@@ -518,7 +550,7 @@ Proof.
     cbn [opt_upd upd_info upd_phsf upd_extra upd_data upd_size upd_c upd_m upd_a upd_perm upd_x
          k_info k_phsf k_extra k_data k_csize k_size k_c k_m k_a k_perm k_x nacc0 app];
     rewrite H2, H3; cbn [N.eqb andb negb]; change (0 =? 0) with true; cbn [andb negb];
-    rewrite N.add_0_l, sum_len_filter, <- H6; reflexivity.
+    rewrite N.add_0_l, sum_len_cut_data, <- H6; reflexivity.
 Qed.
 
 (* 14a: re-parsing the serialisation of a parsed entry gives the entry back, up to dropped empty payloads *)
@@ -526,16 +558,17 @@ Theorem parse_ser_normal cs e : parse_normal cs = Ok e ->
   exists e', parse_normal (ser_normal e) = Ok e' /\ e' = normalize e.
 Proof. intros H. exists (normalize e). split; [apply parse_ser_wf, (parse_normal_wf _ _ H)|reflexivity]. Qed.
 
+Lemma cut_data_idem ds : cut_data (cut_data ds) = cut_data ds.
+Proof. apply cutN_idem, CMAX_pos. Qed.
 Lemma data_chunks_filter t ds :
   concat (map (data_chunks t) (filter nonempty ds)) = concat (map (data_chunks t) ds).
-Proof.
-  induction ds as [|d ds IH]; [reflexivity|]. destruct d as [|b d]; cbn [filter nonempty map concat data_chunks app].
-  - exact IH.
-  - rewrite IH. reflexivity.
-Qed.
+Proof. rewrite !data_chunks_cut. unfold cut_data. change nonempty with nonnil. rewrite cutN_filter. reflexivity. Qed.
 
 Lemma ser_normalize e : ser_normal (normalize e) = ser_normal e.
-Proof. unfold ser_normal, normalize. cbn [n_hdr n_phsf n_extra n_data n_meta n_xattrs]. rewrite data_chunks_filter. reflexivity. Qed.
+Proof.
+  unfold ser_normal, normalize. cbn [n_hdr n_phsf n_extra n_data n_meta n_xattrs].
+  rewrite !data_chunks_cut, cut_data_idem. reflexivity.
+Qed.
 
 (* 14b: byte-stable from the second pass *)
 Theorem ser_stable cs e e' : parse_normal cs = Ok e -> parse_normal (ser_normal e) = Ok e' ->
@@ -554,14 +587,13 @@ Qed.
 
 Lemma normalize_idem e : normalize (normalize e) = normalize e.
 Proof.
-  unfold normalize. cbn [n_hdr n_phsf n_extra n_data n_meta n_xattrs]. f_equal.
-  induction (n_data e) as [|d ds IH]; [reflexivity|]. destruct d; cbn [filter nonempty]; [exact IH|]. rewrite IH. reflexivity.
+  unfold normalize. cbn [n_hdr n_phsf n_extra n_data n_meta n_xattrs]. f_equal. apply cut_data_idem.
 Qed.
 
 Lemma wf_normal_normalize e : wf_normal e -> wf_normal (normalize e).
 Proof.
   intros (H1 & H2 & H3 & H4 & H5 & H6 & H7 & H8 & H9 & H10 & H11 & H12).
-  unfold wf_normal, normalize. cbn [n_hdr n_phsf n_extra n_data n_meta n_xattrs]. rewrite sum_len_filter.
+  unfold wf_normal, normalize. cbn [n_hdr n_phsf n_extra n_data n_meta n_xattrs]. rewrite sum_len_cut_data.
   repeat (split; [assumption|]). assumption.
 Qed.
 
@@ -575,7 +607,7 @@ Qed.
 (* what was parsed is what is written, for the metadata too *)
 Corollary parse_ser_meta cs e e' : parse_normal cs = Ok e -> parse_normal (ser_normal e) = Ok e' ->
   n_hdr e' = n_hdr e /\ n_meta e' = n_meta e /\ n_xattrs e' = n_xattrs e /\ n_phsf e' = n_phsf e /\
-  n_data e' = filter nonempty (n_data e).
+  n_data e' = cut_data (n_data e).
 Proof.
   intros H H'. destruct (parse_ser_normal _ _ H) as (e2 & E2 & ->). rewrite E2 in H'. injection H' as <-.
   repeat split.
